@@ -36,4 +36,6 @@ def main : IO Unit := do
     loop h out GlyphOrder.initial GlyphOrder.driverStep GlyphOrder.initial
   | some (.list [.atom "model", .atom "kern"]) =>
     loop h out ({} : Kern.State) Kern.driverStep {}
+  | some (.list [.atom "model", .atom "sort"]) =>
+    loop h out ({} : NameSort.DState) NameSort.driverStep {}
   | _ => out.putStrLn "unknown-model"
